@@ -374,7 +374,6 @@ func firstDiff(a, b []byte) string {
 	return "no line difference"
 }
 
-
 // c19served: what the running CLI serves (bulk actions "regime", "schema",
 // "schemas") is exactly the shipped files.
 func c19served(c *Ctx) {
